@@ -458,7 +458,7 @@ func (g *gen) replayGen(gc *genCase) error {
 	if left { // alternative or unspecified case images: the judge decides (it reads every field)
 		g.mu.Lock()
 		g.nLeft++
-		take := c.Thorough() || g.nLeft%3 == 0
+		take := g.nLeft%c.Pick(3, 6) == 0
 		g.mu.Unlock()
 		if take {
 			if full, err := recordStr(g.pool, gc.S, gc.P, gc.N, progBoth); err == nil {
